@@ -10,8 +10,10 @@ import (
 	"context"
 	"errors"
 	"net"
+	"os"
 	"sync"
 	"sync/atomic"
+	"syscall"
 	"time"
 )
 
@@ -29,7 +31,11 @@ const (
 
 // ErrLost is returned when the script says the reply was lost (what the
 // production transport reports as a read timeout).
-var ErrLost = errors.New("memtr: i/o timeout (reply lost)")
+var ErrLost error = &net.OpError{Op: "read", Net: "udp", Err: os.ErrDeadlineExceeded}
+
+// ErrRefused is a transport failure that is not a timeout (what the
+// production transport reports after an ICMP port unreachable).
+var ErrRefused error = &net.OpError{Op: "read", Net: "udp", Err: os.NewSyscallError("recvfrom", syscall.ECONNREFUSED)}
 
 // ErrCtx is returned when the attempt context is already done at Send, in
 // which case nothing is transmitted (the production transport fails the write
